@@ -33,6 +33,7 @@ TECHNIQUE = "exhaustive enumeration of small dependency graphs x declaration ord
 LEVEL_TEXT = "Finite small-graph space enumerated completely (exhaustive for the stated bounds) plus generated-input search on larger mixed graphs; error kind, message content, values and termination are judged by an independent graph analysis."
 LEVEL_NOTE = "Trusted: the graph oracle in this file and vlib/spec.py; the watchdog bound stands in for termination."
 
+CASE_TIMEOUT = None  # this check runs its own (nested) watchdog
 BASE = ["k", "x"]
 GHOST = "zz"
 
